@@ -51,6 +51,7 @@ def strategy(tier):
         st.tuples(pos, st.binary(min_size=1, max_size=4).map(bytes.hex)).map(lambda t: ["simpoke", t[0], t[1]]),
         st.just(["refresh"]),
         st.just(["refresh"]),
+        st.integers(0, 11).map(lambda j: ["lossyrefresh", j]),
         st.sampled_from([0.0, 0.05, 0.3, 1.0, 5.0]).map(lambda d: ["gap", d]),
     )
     # macro: the history shape behind 'replayed from an earlier message': a change, the same bytes overwritten on the spa and
@@ -63,10 +64,12 @@ def strategy(tier):
     jitter = st.one_of(st.just([]), st.lists(st.sampled_from([0.0, 0.0, 0.01, 0.02]), min_size=1, max_size=5))
     # partial updates that arrive while the connection handshake is still running (at the given engine iteration / virtual time)
     early = st.one_of(st.just([]), st.just([]), st.lists(st.tuples(st.integers(1, 70), st.lists(rec, min_size=1, max_size=2)).map(list), min_size=1, max_size=2))
-    return st.builds(lambda k, seed, o, j, e: dict({"k": k, "seed": seed, "ops": [x for grp in o for x in grp][:14], "jitter": j if k == "async" else []},
-                                                  **({"early": e} if e and k == "threaded" else {})),
+    # protocol sequence numbers already used up on this connection (the acknowledgements must stay in 1..191 across the wrap)
+    pre = st.one_of(st.just(0), st.integers(0, 200), st.integers(176, 192))
+    return st.builds(lambda k, seed, o, j, e, pr: dict({"k": k, "seed": seed, "ops": [x for grp in o for x in grp][:14], "jitter": j if k == "async" else []},
+                                                      **({"early": e} if e and k == "threaded" else {}), **({"pre": pr} if pr else {})),
                      st.sampled_from(["async", "async", "threaded"]), st.integers(0, 2**31),
-                     st.lists(item, min_size=1, max_size=10), jitter, early)
+                     st.lists(item, min_size=1, max_size=10), jitter, early, pre)
 
 
 def _classify(ops):
@@ -89,7 +92,7 @@ def _classify(ops):
             if op[1] in touched:
                 nt = True
             touched[op[1]] = 1
-        elif op[0] == "refresh":
+        elif op[0] in ("refresh", "lossyrefresh"):
             refreshed_after |= {b for b in touched if 256 <= b < 256 + 507}
     return nt
 
@@ -120,6 +123,21 @@ class _Ref:
             self.block = _apply(self.block, p, d)
 
 
+def _hole_filter(hole):
+    """drops the hole-th STATV segment it sees, once"""
+    state = {"n": 0, "done": False}
+
+    def flt(data):
+        if state["done"] or b"<DATAS>STATV" not in data:
+            return None
+        state["n"] += 1
+        if state["n"] - 1 == hole:
+            state["done"] = True
+            return "drop"
+        return None
+    return flt
+
+
 def _run_async(res, case):
     from geckolib.driver import GeckoStatusBlockProtocolHandler
 
@@ -136,6 +154,8 @@ def _run_async(res, case):
             lo, hi = _installed_range(start, length)
             d0 = len(W.delivered)
             w0 = len(W.wire)
+            for _ in range(int(case.get("pre", 0))):
+                spa._protocol.get_and_increment_sequence_counter(False)   # a connection that has been up for a while
             ref = _Ref(spa.struct.status_block)
             served = []  # sim block snapshots in the order STATU requests are served
             orig_receive = peer.receive
@@ -167,9 +187,18 @@ def _run_async(res, case):
                 elif k == "simpoke":
                     d = bytes.fromhex(op[2])[: BLOCK - op[1]]
                     sim.structure.set_status_block(_apply(sim.structure.status_block, op[1], d))
-                elif k == "refresh":
+                elif k in ("refresh", "lossyrefresh"):
+                    if k == "lossyrefresh":
+                        # one middle segment of the answer is lost: the final segment arrives out of sequence and the client asks again
+                        nseg = -(-length // SEG)
+                        hole = 1 + int(op[1]) % max(1, nseg - 2)
+                        W.s2c_filter = _hole_filter(hole)
                     tasks.append(asyncio.ensure_future(spa.struct.get(spa._protocol, spa._get_status_block_handler_func, 3)))
                     await asyncio.sleep(0)
+                    if k == "lossyrefresh":
+                        # keep later traffic out of the damaged exchange: the filter counts segments of this answer only
+                        await W.sleep(1.5)
+                        W.s2c_filter = None
                 elif k == "gap":
                     await W.sleep(float(op[1]))
                 else:
@@ -188,6 +217,13 @@ def _run_async(res, case):
             await W.sleep(0.5)
             # reference: fold deliveries in order; a refresh counts at its final segment
             results = [t.result() for t in tasks]
+            # which answers reached the client complete (an answer with a lost segment is not installed)
+            chain_ok = []
+            for w in W.wire[w0:]:
+                if w[1] == "c2s" and b"<DATAS>STATU" in w[4] and w[5] == "deliver":
+                    chain_ok.append(True)
+                elif w[1] == "s2c" and b"<DATAS>STATV" in w[4] and w[5] != "deliver" and chain_ok:
+                    chain_ok[-1] = False
             seg_chain = 0
             for t_, ep, data in W.delivered[d0:]:
                 parts = R.unframe(data)
@@ -199,12 +235,13 @@ def _run_async(res, case):
                 elif content.startswith(b"STATV"):
                     if content[6] == 0:  # next == 0: the chain completes here
                         snap = served[seg_chain] if seg_chain < len(served) else None
+                        complete = chain_ok[seg_chain] if seg_chain < len(chain_ok) else True
                         seg_chain += 1
-                        if snap is not None:
+                        if snap is not None and complete:
                             ref.block = ref.block[:lo] + snap[lo:hi] + ref.block[hi:]
             if not all(results):
                 # a refresh that failed (only possible under jitter) installs nothing: cannot fold; skip the block oracle
-                if not case.get("jitter"):
+                if not case.get("jitter") and not any(o[0] == "lossyrefresh" for o in case["ops"]):
                     res.fail("C05|refresh-failed-fault-free|async", f"refresh results {results}")
                 res.label("refresh-failed")
             else:
@@ -261,6 +298,8 @@ def _run_threaded(res, case):
         if spa.struct.status_block != sim.structure.status_block:
             res.fail("C05|block-differs|threaded-handshake", "client block differs from the spa's right after the handshake (partial updates arrived during it)")
             return
+        for _ in range(int(case.get("pre", 0))):
+            spa.get_and_increment_sequence_counter(False)   # a connection that has been up for a while
         start, length = spa.new_log_class.begin, spa.new_log_class.end
         lo, hi = _installed_range(start, length)
         ref = _Ref(spa.struct.status_block)
@@ -292,7 +331,7 @@ def _run_threaded(res, case):
             elif k == "simpoke":
                 d = bytes.fromhex(op[2])[: BLOCK - op[1]]
                 sim.structure.set_status_block(_apply(sim.structure.status_block, op[1], d))
-            elif k == "refresh":
+            elif k in ("refresh", "lossyrefresh"):
                 # the threaded client is driven to quiescence first: its single-slot transfer state
                 # is only specified for one transfer at a time
                 if not stepped.run_until(eng, q):
